@@ -368,3 +368,50 @@ theorem C04.reverse_order_log_nonvacuous :
     s.log.map (·.tok) = [0, 1] ∧ s.log.map (·.kind) = [.user 5, .user 6] ∧ s.owner 0 = s.owner 1 ∧
     s.late 0 = false ∧ s.late 1 = false := by
   decide
+
+/-! ### registrations are (process, hook) pairs -/
+
+/-- **A registration is a (process, hook) pair.** `AddExitHook(p, user hook h)` by a free thread:
+it is refused only when `p` is running and `h` is already in `p`'s OWN hook list – in that case
+nothing changes; in every other case, whatever other processes the same hook `h` is registered
+on, a fresh registration token owned by `p` is allocated and the hook is now registered on `p`
+(in `p.exitHooks`, or – `p` terminated – in an activation that runs it with `p`'s error).
+`C04.hook_exactly_once` is a statement about these tokens, i.e. per registration. -/
+theorem C04.registration_per_process (s : State) (t p h : Nat) :
+    t < s.nt → free s t = true → p < s.np →
+    let s' := step s t (.start (.add p h))
+    (((s.procs p).terminated = false ∧ (s.procs p).hooks.any (fun x => x.kind == HookKind.user h) = true) → s' = s) ∧
+    (¬ ((s.procs p).terminated = false ∧ (s.procs p).hooks.any (fun x => x.kind == HookKind.user h) = true) →
+      s'.nextTok = s.nextTok + 1 ∧ s'.owner s.nextTok = p ∧
+      located s' p { kind := .user h, tok := s.nextTok }) := by
+  intro ht hfree hp
+  simp only [step, ht, if_true, hfree, startOp, hp]
+  unfold addHook
+  dsimp only
+  by_cases hterm : (s.procs p).terminated = true
+  · simp only [hterm, if_true]
+    refine ⟨fun h1 => by simp at h1, fun _ => ⟨rfl, by simp, ?_⟩⟩
+    exact Or.inr ⟨t, _, ht, (mem_stack_pushFrame _ t t _ _).mpr (Or.inl ⟨rfl, rfl⟩), rfl, by simp⟩
+  · have hrun : (s.procs p).terminated = false := by simpa using hterm
+    rw [if_neg hterm]
+    by_cases hdup : (s.procs p).hooks.any (fun x => x.kind == HookKind.user h) = true
+    · rw [if_pos hdup]
+      exact ⟨fun _ => rfl, fun h1 => absurd ⟨hrun, hdup⟩ h1⟩
+    · rw [if_neg hdup]
+      refine ⟨fun h1 => absurd h1.2 hdup, fun _ => ⟨rfl, by simp, ?_⟩⟩
+      exact Or.inl (by simp)
+
+/-- Non-vacuity / sharing: the same hook id 7 registered on two roots and on a forked child gets
+three registrations (tokens 0, 1, 4 owned by p0, p1, p2), the duplicate on p1 none; after the
+processes have exited (p1 with error 2, p0 – and by cascade p2 – with error 4) each of the three
+has run exactly once and received ITS process's error. -/
+theorem C04.registration_per_process_nonvacuous :
+    let s := run (init 1) [(0, .start .new), (0, .start .new), (0, .start (.add 0 7)), (0, .start (.add 1 7)),
+      (0, .start (.add 1 7)), (0, .start (.fork 0)), (0, .cont), (0, .start (.add 2 7)),
+      (0, .start (.exit 1 2)), (0, .cont), (0, .cont),
+      (0, .start (.exit 0 4)), (0, .cont), (0, .cont), (0, .cont), (0, .cont), (0, .cont), (0, .cont), (0, .cont)]
+    s.nextTok = 5 ∧ s.owner 0 = 0 ∧ s.owner 1 = 1 ∧ s.owner 4 = 2 ∧
+    runCount s 0 = 1 ∧ runCount s 1 = 1 ∧ runCount s 4 = 1 ∧
+    (s.log.filter (fun e => e.kind == HookKind.user 7)).map (fun e => (e.proc, e.err)) = [(0, 4), (2, 4), (1, 2)] ∧
+    (s.threads 0).stack = [] := by
+  decide
